@@ -38,6 +38,8 @@ def as_bool(v):
     """Truth value of a non-boolean term as a Boolean atom (so that it can sit under And/Or/Not)."""
     if isinstance(v, sp.logic.boolalg.Boolean) or v in (sp.true, sp.false):
         return v
+    if getattr(getattr(v, "func", None), "__name__", "") == "bool" and len(v.args) == 1:
+        return as_bool(v.args[0])           # bool(x) is true exactly when x is
     return sp.Eq(sp.Function("truth")(v), sp.true, evaluate=False)
 
 
@@ -301,6 +303,16 @@ class Translator:
             if isinstance(v0, sp.Tuple):
                 return v0            # tuple(<display / unrolled comprehension>) is that sequence
             return sp.Function(fn)(v0)
+        if fn == "zip" and isinstance(n.func, ast.Name) and args and not n.keywords and self.unroll_comps:
+            cols = [self.tr(a) for a in args]
+            if all(isinstance(c, sp.Tuple) for c in cols) and min(len(c) for c in cols) <= 8:
+                m = min(len(c) for c in cols)
+                return sp.Tuple(*[sp.Tuple(*[c[i] for c in cols]) for i in range(m)])      # zip of known displays: its rows
+        if fn in ("all", "any") and isinstance(n.func, ast.Name) and len(args) == 1 and not n.keywords:
+            v0 = A(0)
+            if isinstance(v0, sp.Tuple) and len(v0) > 0:
+                parts = [as_bool(x) for x in v0]
+                return sp.And(*parts) if fn == "all" else sp.Or(*parts)
         if fn in ("sqrt",):
             return sp.sqrt(A(0))
         if fn in ("abs", "absolute", "fabs"):
